@@ -22,11 +22,19 @@ func main() {
 		seed := fs.Uint64("seed", 1, "")
 		n := fs.Int("n", 1, "")
 		verbose := fs.Bool("v", false, "")
+		dump := fs.String("dump", "", "write the run as a replay file")
 		fs.Parse(os.Args[2:])
 		eng := sim.EngineFor(*prop)
 		for i := 0; i < *n; i++ {
 			t0 := time.Now()
 			r, res := sim.Execute(eng, *prop, *seed+uint64(i), "quick")
+			if *dump != "" {
+				rf := r.ReplayFile(nil)
+				if len(res.Violations) > 0 {
+					rf = r.ReplayFile(&res.Violations[0])
+				}
+				sim.WriteJSON(*dump, rf)
+			}
 			bz, _ := json.Marshal(res)
 			fmt.Printf("%s  (%v)\n", bz, time.Since(t0))
 			if *verbose {
